@@ -14,10 +14,11 @@ use serde_json::{json, Value};
 pub const META_C01: Meta = Meta {
     id: "C01",
     level: "exploration",
-    rule: "Cases are (entity spec, request) pairs: proptest over all six request headers generated relative to the entity (own tag, W/-toggled, dates around Last-Modified, range positions around L), lengths 0..2^64-1, chunk plans with sizes {1,2,3,7,64,4096,rest}, empty chunks and Pending polls; plus an exhaustive sweep L in 0..=6 x all single range specs with positions 0..=L+2 x all plans [Chunk(a),Chunk(b),Rest] (+Empty/Pending variants), and all double specs under three plans. Oracle: Content-Length / initial exact size hint vs. bytes drained. Non-trivial = body drained to a clean end with announced length > 0 and (>= 2 frames, or a Pending, or multipart, or a non-2xx body); distinct by fingerprint of the whole case.",
+    rule: "Cases are (entity spec, request) pairs: proptest over all six request headers generated relative to the entity (own tag, W/-toggled, dates around Last-Modified, range positions around L), lengths 0..2^64-1 incl. decimal-width boundaries 10^k-1 / 10^k, chunk plans with sizes {1,2,3,7,64,4096,rest}, empty chunks and Pending polls, chunks handed over as 1-3 segments of a non-contiguous Data type; the C06 multipart generator (small parts on entities of any size, dozens of parts, near-overflow shapes); plus an exhaustive sweep L in 0..=6 x all single range specs with positions 0..=L+2 x all plans [Chunk(a),Chunk(b),Rest] (+Empty/Pending variants), and all double specs under three plans. Oracle: Content-Length / initial exact size hint vs. bytes drained. Non-trivial = body drained to a clean end with announced length > 0 and (>= 2 frames, or a Pending, or multipart, or a non-2xx body); distinct by fingerprint of the whole case.",
     assumptions: &[
         "harness entity honours the Entity contract",
         "bodies announced larger than 1 MiB are drained as a bounded prefix (never-more-than-announced and initial hint still checked)",
+        "every phase is repeated under the build without debug assertions / overflow checks (release semantics)",
         "a panic inside serve() is C13's subject and only counted here",
     ],
 };
